@@ -180,8 +180,15 @@ def history(dc, sc, res, rng, kind, cfg, label):
                 call('touch', gen.pick(rng, keys), gen.pick(rng, [None, gen.ttl_exact(5.5)]))
             elif r < 0.9:
                 call('pop', gen.pick(rng, keys), 'D')
-            elif r < 0.94:
+            elif r < 0.925:
                 clock.advance(gen.pick(rng, [0.3, 1.0, 5.0]))
+            elif r < 0.94:
+                # the limit moves at run time; FanoutCache.reset gives every shard the value as it stands
+                new_limit = gen.pick(rng, [0, 32, 64, 150, 300, 1024]) * 1024
+                call('reset', 'size_limit', new_limit)
+                mon.limit = new_limit
+                cfg = dict(cfg, size_limit=new_limit * (3 if kind == 'fanout' else 1))
+                res.count('size_limit_changes_at_run_time')
             elif r < 0.97:
                 # explicit cull: afterwards no expired item, and volume <= limit or empty
                 call('cull')
